@@ -123,6 +123,20 @@ func c08S2K(m *Model, v *Verdict, rng *RNG) {
 				}
 			}
 		}
+		// which parameter values are run and which are refused (zero stands for 2^32 iterations: RFC 3962 section 4),
+		// against the model (`iterationsOfParam`, `iterationsAccepted`; theorems `zero_param_refused`, `param_accepted`)
+		if defaultIter(et) != 0 {
+			for _, p := range []uint32{0, 1, 2, 4096, 1<<24 + 1, 1 << 31, 1<<32 - 1} {
+				mo := m.Ask(fmt.Sprintf("tt.iter %d", p))
+				var err error
+				var key []byte
+				pan := Protect(func() { key, err = e.StringToKey("pw", "salt", s2kParams(et, p)) })
+				v.Case(fmt.Sprintf("s2k-count/%d/%d", et, p), "s2k parameter value accepted or refused")
+				if pan != "" || (mo == "refused") != (err != nil) || (err != nil && len(key) > 0) {
+					v.Violate("failing-input", fmt.Sprintf("c08:s2k-count:et=%d:%d", et, p), "an s2kparams value is run although the RFC reading of it is beyond the bound (or refused although it is not)", map[string]string{"params": s2kParams(et, p), "go": fmt.Sprintf("%s err=%v %s", X(key), err, pan), "model": mo})
+				}
+			}
+		}
 		// malformed parameters must be rejected, well-formed ones parsed as 8 hex digits big endian
 		if defaultIter(et) != 0 {
 			for _, p := range []string{"", "0", "1000", "000010", "0000100", "000010000", "0000100g", "zzzzzzzz", "00 01000", "0x001000", "0000100\x00"} {
